@@ -49,6 +49,12 @@ type arrival struct {
 	Err      string            `json:"err,omitempty"`
 }
 
+// two group values that share their first 80 characters (bearer tokens of one issuer look like this)
+var (
+	longGroupA = "Bearer eyJhbGciOiJSUzI1NiIsInR5cCI6IkpXVCIsImtpZCI6Imlzc3Vlci1rZXktMDEifQ.eyJpc3MiOiJodHRwczovL2lkcC5leGFtcGxlLmNvbSIsInN1YiI6InRlbmFudC1hIn0"
+	longGroupB = "Bearer eyJhbGciOiJSUzI1NiIsInR5cCI6IkpXVCIsImtpZCI6Imlzc3Vlci1rZXktMDEifQ.eyJpc3MiOiJodHRwczovL2lkcC5leGFtcGxlLmNvbSIsInN1YiI6InRlbmFudC1iIn0"
+)
+
 var t0 = time.Date(2026, 3, 1, 12, 0, 0, 300_000_000, time.UTC)
 
 func genCase(r *sim.Rand) quotaCase {
@@ -281,7 +287,7 @@ func (m *model) clone() *model {
 // ---- workload --------------------------------------------------------------------------------
 
 func genArrivals(r *sim.Rand, qc quotaCase, n int) []arrival {
-	groups := []string{"", "g1", "g2"}
+	groups := []string{"", "g1", "g2", longGroupA, longGroupB}
 	tenants := []string{"", "t1"}
 	var out []arrival
 	cur := int64(0)
@@ -383,6 +389,50 @@ func main() {
 			continue
 		}
 		runCase(i, args, r, qc, v, root, clk, nil)
+	}
+	// crowd histories: more than four thousand group values appear between two bursts of one group inside one window
+	clo, chi := args.Share(args.Pick(8, 96))
+	for i := clo; i < chi; i++ {
+		r := args.CaseRand(4_000_000 + i)
+		var qc quotaCase
+		for try := 0; try < 200; try++ {
+			qc = genCase(r)
+			if !qc.NoLimiter && qc.Chain[qc.LimiterOn].Group == "x-group" {
+				break
+			}
+		}
+		if qc.NoLimiter || qc.Chain[qc.LimiterOn].Group != "x-group" {
+			continue
+		}
+		w := qc.Chain[qc.LimiterOn].WindowS * int64(time.Second)
+		for _, n := range qc.Chain {
+			if n.WindowS*int64(time.Second) > w {
+				w = n.WindowS * int64(time.Second)
+			}
+		}
+		var arr []arrival
+		n := 0
+		add := func(off int64, g string) {
+			n++
+			arr = append(arr, arrival{OffsetNs: off, ID: fmt.Sprintf("k%d", n), Headers: map[string]string{"x-group": g, "x-tenant": "t1"}})
+		}
+		burst := int(qc.Chain[qc.LimiterOn].Max) + 2
+		for k := 0; k < burst; k++ {
+			add(int64(k), "crowd-first")
+		}
+		second := 2*w + int64(time.Second) // well inside a later window of every node
+		for k := 0; k < burst; k++ {
+			add(second+int64(k), "crowd-first")
+		}
+		crowd := r.Range(4100, 4600)
+		for k := 0; k < crowd; k++ {
+			add(second+1000+int64(k)*100, fmt.Sprintf("crowd-%d", k))
+		}
+		for k := 0; k < 3; k++ {
+			add(second+1000+int64(crowd)*100+int64(k), "crowd-first")
+		}
+		runCase(4_000_000+i, args, r, qc, v, root, clk, &replay{Arrivals: arr})
+		v.Count("crowd_histories", 1)
 	}
 	if v.Counters["refused"] == 0 || v.Counters["admitted"] == 0 {
 		v.Inconclude("no refusal or no admission observed in this batch")
@@ -549,7 +599,7 @@ func concurrentRound(idx int, args sim.Args, r *sim.Rand, qc quotaCase, env *sim
 	at := last.Truncate(time.Second).Add(time.Second + 400*time.Millisecond)
 	clk.Set(at)
 	n := r.Range(8, 24)
-	groups := []string{"", "g1", "g2"}
+	groups := []string{"", "g1", "g2", longGroupA, longGroupB}
 	round := make([]arrival, n)
 	ops := make([]porcupine.Operation, n)
 	var tick atomic.Int64
